@@ -312,7 +312,7 @@ def print_axioms(module, theorems):
     res = {}
     txt = o + e
     # messages look like: 'Foo.bar' depends on axioms: [propext, Quot.sound]   or   does not depend on any axioms
-    for m in re.finditer(r"'([^']+)' (depends on axioms: \[([^\]]*)\]|does not depend on any axioms)", txt, re.S):
+    for m in re.finditer(r"'(\S+)' (depends on axioms: \[([^\]]*)\]|does not depend on any axioms)", txt, re.S):
         name = m.group(1)
         axs = set()
         if m.group(3):
